@@ -51,6 +51,17 @@ def run(ctx):
         ctx.count('hashseed_compared')
         if len(ds) > 1:
             ctx.violation('with sort_keys the dumped text differs between PYTHONHASHSEED values', dict(desc(c), kind='hashseed_dependent'), dict(desc(c), kind='hashseed_dependent'))
+    # anchor names are a function of the document alone: multi-document dumps of graphs with sharing (C12 predicate: stream = concatenation of single dumps)
+    multi = []
+    for i in range(ctx.n(800, 8000)):
+        docs = []
+        for _ in range(ctx.rng.choice([2, 3, 4])):
+            shared = ctx.rng.choice([[1, 2], {'k': 'v'}, ['x'], [[3]]])
+            inner = build16(ctx.rng, 1, [])
+            docs.append(values.encode(ctx.rng.choice([[shared, shared, inner], {'a': shared, 'b': [shared, inner]}, [inner, [shared], shared, shared]])))
+        o = c02.opts(ctx.rng)
+        multi.append([docs, o, ctx.rng.choice(['py', 'py', 'c'])])
+    corr.direct(ctx, 'c12', multi, describe=lambda c: dict(docs=c[0], opts=c[1], dumper=c[2]), label='anchors_per_document')
     ctx.partial = [dict(theorem='dump_perm_invariant for numeric/date keys, order_preserved, anchors_function_of_document, dump_fixed_point', missing='sort invariance is proved generically and for str keys; the rest is decided by correspondence and the direct run')]
     return ctx.finish(assumptions=['keys mutually comparable (the TypeError fallback keeps insertion order)', 'LibYAML is observed, not modelled'])
 
